@@ -19,7 +19,7 @@ from ..lib import call_impl
 
 PROP = "C13"
 RULE = ("cases: (1) exhaustive small scope: every leaf reader (DataFrameReader, CSVFileReader via from_path with "
-        ".tab/.csv/.tsv/sep=',', ParquetFileReader with row-group sizes 1,2,n) x n in 0..5 (thorough 0..8) x chunk size "
+        ".tab/.csv/.tsv/sep=',', ParquetFileReader with row-group sizes 1,2 (thorough also 3,n)) x n in 0..5 (thorough 0..8) x chunk size "
         "1..n+1 x column requests (None, each single column, reversed order, a 2-permutation) for read and "
         "get_chunked_data_iterator; (2) random reader trees of depth <= 3 (thorough 4) built from ColumnMappedReader "
         "(ctor and from_path(column_map=)), JoinedTabularDataReader, ComputedTabularDataReader (const / copy-of-column "
@@ -39,8 +39,13 @@ ASSUMPTIONS = [
     "str -> str, NaN/None -> NaN; floats have <= 6 significant digits so that the text round trip is exact",
     "DataFrameReader is driven with RangeIndex frames; column names within one base table are distinct",
     "negative chunk sizes are not modelled (the model's chunk size is a nat); chunk size 0 is",
-    "Parquet record-batch lengths are an oracle recorded from pyarrow.ParquetFile.iter_batches(c) per case; the "
-    "contract (all batches but the last have c rows, none is empty, they sum to n) is asserted on every recorded value",
+    "Parquet record-batch lengths are an oracle recorded from pyarrow.ParquetFile.iter_batches(c) per case (once with "
+    "a column projected, once with none: pyarrow 25 re-chunks across row groups only in the first case); the contract "
+    "(all batches but the last have c rows, none is empty, they sum to n, independent of which column is projected) "
+    "is asserted on every value recorded with a projected column",
+    "the theorems about readers assume that every CSV / Parquet leaf is asked for at least one of its columns "
+    "(tr_req); outside this guard the code contradicts the property (known findings csv-reader:columns=[], "
+    "parquet-reader:columns=[]) and the model follows the code",
     "a computed column never carries the name of a column of its inner reader (df[k] = ... then appends)",
     "generators are consumed with list(...): the first exception ends the observation",
 ]
@@ -808,10 +813,9 @@ def _leaf_variants(tab, n, thorough):
            ("csv.tab", _leaf("csv", tab, suffix=".tab")),
            ("csv,", _leaf("csv", tab, suffix=".csv", sep=",")),
            ("parquet.rg1", _leaf("parquet", tab, rg=1)),
-           ("parquet.rg2", _leaf("parquet", tab, rg=2)),
-           ("parquet.rgn", _leaf("parquet", tab, rg=max(1, n)))]
+           ("parquet.rg2", _leaf("parquet", tab, rg=2))]
     if thorough:
-        out += [("csv.tsv", _leaf("csv", tab, suffix=".tsv")), ("csv.csv", _leaf("csv", tab, suffix=".csv")),
+        out += [("parquet.rgn", _leaf("parquet", tab, rg=max(1, n))),("csv.tsv", _leaf("csv", tab, suffix=".tsv")), ("csv.csv", _leaf("csv", tab, suffix=".csv")),
                 ("parquet.rg3", _leaf("parquet", tab, rg=3))]
     return out
 
@@ -964,7 +968,7 @@ def rand_request(rng, rd, want_ok=True):
 def gen_random(ctx):
     rng = ctx.sub("trees")
     cases = []
-    ntree = 700 if ctx.thorough else 170
+    ntree = 700 if ctx.thorough else 120
     for t in range(ntree):
         n = rng.choice([0, 1, 2, 3, 3, 4, 5, 6, 7, 9, 12] + ([17, 25] if ctx.thorough else []))
         pool = _Names()
@@ -1067,6 +1071,8 @@ def gen_writers(ctx):
             for kind in ("DataFrame", "Dicts"):
                 if kind == "Dicts" and b <= 1:
                     sub = [(), (1,), (2, 1)]
+                elif not ctx.thorough and b <= 1 and suffix == ".tab":
+                    sub = seqs[::4]
                 elif ctx.thorough or kind == "DataFrame" or suffix == ".parquet":
                     sub = seqs
                 else:
